@@ -135,21 +135,29 @@ def collapse_case(d, variant):
     return c
 
 
-def nested_case(rng, d):
+def nested_case(rng, d, pos=None, mixed=None):
     """two or three triples maps that agree everywhere except at one position, where their templates have nested
     (or equal) constant prefixes; the data contains the prefix differences, so the rules DO produce common statements:
     they must share a group"""
     os.makedirs(d, exist_ok=True)
-    pos = rng.choice(['S', 'P', 'O', 'G'])
+    pos = pos or rng.choice(['S', 'P', 'O', 'G'])
     base = rng.choice(['http://ex.org/a', 'http://ex.org/', 'http://ex.org/x/'])
     exts = rng.sample(['', 'b', 'bc', 'b/', 'c'], rng.randrange(2, 4))
     rows = [{'id': e + v} for e in ['', 'b', 'c', 'bc', 'b/', '/'] for v in ['1', 'z']]
     path = os.path.join(d, 't0.csv')
     assert cg.write_csv(path, ['id'], rows)
     tms = []
+    # mixed variant: one of the longer maps is a CONSTANT equal to a value the shorter template takes on the data
+    # (a scan that compares constants by equality must not be used when another map at that position is a template)
+    if mixed:
+        exts = ['', rng.choice(['b', 'bc'])]     # no character that percent-encoding would change
+    const_at = rng.randrange(1, len(exts)) if (rng.random() < 0.5 if mixed is None else mixed) else None
+    shortest = min(exts, key=len)
     for i, e in enumerate(exts):
         nested = cg.tpl_map({'pre': base + e, 'parts': [['id', '']]}, 'iri')
         const = lambda v: {'kind': 'constant', 'value': v, 'termtype': 'iri'}
+        if const_at == i and e != shortest and e.startswith(shortest):
+            nested = const(base + e + rng.choice(['1', 'z']))
         subj = dict(nested if pos == 'S' else const('http://ex.org/s'))
         subj.update({'classes': [], 'graphs': []})
         pom = {'predicates': [nested if pos == 'P' else const('http://ex.org/p')],
@@ -290,6 +298,13 @@ def run(ctx, lean, findings):
             cli_case(ctx, case, fmt, mode, use_dir=bool(it % 2))
         if not ctx.escalate and ctx.elapsed() > (80 if ctx.tier == 'quick' else 780):
             break
+    # deterministic sweep: nested prefixes at every position, all-template and mixed constant/template, both algorithms
+    k = 0
+    for pos in 'SPOG':
+        for mixed in (False, True):
+            for mode in ('PARTIAL-AGGREGATIONS', 'MAXIMAL'):
+                k += 1
+                disjoint_case(ctx, nested_case(rng, os.path.join(ctx.tmp, f'nest{k}'), pos=pos, mixed=mixed), 'N-QUADS', mode, 'nested sweep')
     # rows that collapse to one statement inside a single-rule group: only the per-group set keeps the file duplicate-free
     for k, variant in enumerate(['concat', 'canon', 'join']):
         c = collapse_case(os.path.join(ctx.tmp, f'collapse{k}'), variant)
